@@ -336,6 +336,16 @@ class Exec:
                     self.emit("callIfHasFunctions")
                     self.callees.append(self.callee_of(st.body[0].value))
                     return
+            # if result.modified: <plumbing>     (result = what the IR-level implementation returned)
+            if (isinstance(st.test, ast.Attribute) and st.test.attr == "modified" and self.val(st.test.value) == RESULT
+                    and not st.orelse):
+                at = len(self.stmts)
+                self.run_block(st.body)
+                if self.returned:
+                    self.stmts.append("unknown")
+                else:
+                    self.stmts.insert(at, f"skipUnlessModified {len(self.stmts) - at}")
+                return
             r = self.test(st.test)
             if r is True:
                 self.run_block(st.body)
@@ -366,6 +376,48 @@ def _has_function_guard(fn: ast.FunctionDef) -> bool:
     return False
 
 
+def _pass_names(node: ast.AST) -> list[str]:
+    """Names of the pass classes constructed inside `node`, in source order."""
+    found = []
+
+    class V(ast.NodeVisitor):
+        def visit_Call(self, c):
+            name = ast.unparse(c.func).split(".")[-1]
+            if name.endswith("Pass"):
+                found.append((c.lineno, c.col_offset, name))
+            self.generic_visit(c)
+
+    V().visit(node)
+    return [n for _, _, n in sorted(found)]
+
+
+def pass_lists(trees: dict) -> dict:
+    """Pass pipelines of the IR-level implementations, as written in the source."""
+    out = {}
+    rw = _find(trees["onnxscript/rewriter/__init__.py"], "rewrite")
+    out["rewrite"] = []
+    if rw is not None:
+        for st in ast.walk(rw):
+            if isinstance(st, ast.Assign) and isinstance(st.value, ast.Call) and ast.unparse(st.value.func).endswith("PassManager"):
+                out["rewrite"] = _pass_names(st.value)
+    rp = _find(trees["onnxscript/utils/replace.py"], "replace_functions_inplace")
+    out["replace_functions"] = []
+    if rp is not None:
+        for st in rp.body:
+            if isinstance(st, ast.For):
+                out["replace_functions"].append("AddFunctions")  # model_functions[func.identifier()] = func
+            elif isinstance(st, ast.Expr) and isinstance(st.value, ast.Call):
+                out["replace_functions"] += _pass_names(st.value)
+    rel = "onnxscript/optimizer/_optimizer.py"
+    try:
+        tree = ast.parse((core.REPO / rel).read_text())
+        fn = _find(tree, "optimize_ir")
+        out["optimize_ir"] = _pass_names(fn) if fn is not None else []
+    except OSError:
+        out["optimize_ir"] = []
+    return out
+
+
 def extract() -> dict:
     out = {"progs": {}, "routes": [], "public": {}, "callees": {}}
     trees = {}
@@ -394,6 +446,7 @@ def extract() -> dict:
             out["public"][api] = ex.public
             for callee, param, src in ex.routes:
                 out["routes"].append((api, e, callee, param, src))
+    out["passes"] = pass_lists(trees)
     return out
 
 
@@ -427,6 +480,13 @@ def lean_text(x: dict) -> str:
     L.append("def callees : List (String × String × List String) := [")
     L.append(",\n".join(f"  ({q(a)}, {q(e)}, [{', '.join(q(c) for c in cs)}])" for (a, e), cs in sorted(x["callees"].items())))
     L.append("]")
+    L.append("")
+    L.append("/-- Pass pipelines of the IR-level implementations, as constructed in the source (in order). -/")
+    L.append("def passLists : List (String × List String) := [")
+    L.append(",\n".join(f"  ({q(a)}, [{', '.join(q(c) for c in ps)}])" for a, ps in sorted(x["passes"].items())))
+    L.append("]")
+    L.append("")
+    L.append("def passesOf (a : String) : List String := ((passLists.find? fun r => r.1 == a).map (·.2)).getD [\"?\"]")
     L.append("")
     L.append("end OV.Gen.C15")
     return "\n".join(L) + "\n"
